@@ -124,7 +124,9 @@ def _stub_box(t):
     box.__dict__.update(
         style=style, bookmark_label='', element=None, element_tag='x',
         is_input=lambda: False, is_form=lambda: False, is_attachment=lambda: bool(attach),
-        hit_area=lambda: (bid, 1000 + bid, 3, 5), all_children=lambda: children, children=children)
+        hit_area=lambda: (bid, 1000 + bid, 3, 5), all_children=lambda: children,
+        # like table boxes, some stubs reach part of their boxes only through all_children() (column groups)
+        children=(children[:-1] if len(children) >= 2 and bid % 4 == 0 else children))
     return box
 
 
@@ -172,6 +174,29 @@ def aabb(case):
     m = None if case['m'] is None else Matrix(*[Fraction(v) for v in case['m']])
     out = rectangle_aabb(m, *[Fraction(v) for v in case['r']])
     return [str(Fraction(v)) for v in out]
+
+
+# ------------------------------------------------------------------------------ 3c. get_link_attribute (direct)
+
+class _Element:
+    tag = 'a'
+
+    def __init__(self, attrib):
+        self.attrib = attrib
+
+    def get(self, name, default=None):
+        return self.attrib.get(name, default)
+
+
+def hrefs(case):
+    """case: dict(base=str|None, href=str) -> None | [kind, target]"""
+    from weasyprint.urls import get_link_attribute
+    res = get_link_attribute(_Element({'href': case['href']}), 'href', case['base'])
+    if res is None:
+        return None
+    token_type, (kind, target) = res
+    assert token_type == 'url'
+    return [kind, target]
 
 
 # ------------------------------------------------------------------------------ 4. dates (direct)
@@ -250,7 +275,7 @@ def render_doc(case):
     def finisher(document, pdf):
         grabbed['pdf'] = pdf
     try:
-        doc = FakeHTML(string=case['html'], base_url=case.get('base_url', 'http://base.test/dir/doc.html'),
+        doc = FakeHTML(string=case['html'], base_url=(case['base_url'] if 'base_url' in case else 'http://base.test/dir/doc.html'),
                        url_fetcher=fetcher).render()
         buf = io.BytesIO()
         doc.write_pdf(buf, zoom=case.get('zoom', 1), finisher=finisher, uncompressed_pdf=True)
